@@ -276,9 +276,14 @@ class Client:
       action = None
       plan = sim.fault_plan
       if plan is not None:
-        with sim.lock:
-          idx = sim.call_counts.get((server.address, method), 0)
-          sim.call_counts[(server.address, method)] = idx + 1
+        # idx = index of this call among the data-plane (non-heartbeat) calls
+        # that reached this server; heartbeats are not counted (idx -1).
+        if method == 'heartbeat':
+          idx = -1
+        else:
+          with sim.lock:
+            idx = sim.call_counts.get(server.address, 0)
+            sim.call_counts[server.address] = idx + 1
         action = plan(server.address, method, idx)
       kind = (action or {}).get('kind', 'ok')
       if kind != 'ok':
